@@ -205,7 +205,7 @@ def gen_user(rng: random.Random, allow_async: bool = True):
     return ("UserV", N(rng.choice(ids)), rng.random() < 0.5)
 
 
-LEAF_KEYS = [S("a"), S("b"), I(1), S("c"), ("VTuple", [I(1), S("x")]), D1]
+LEAF_KEYS = [S("a"), S("b"), I(1), S("c"), ("VTuple", [I(1), S("x")]), D15]
 
 
 def gen_validator(rng: random.Random, depth: int, allow_async: bool = True, lazy_n: int = 0):
